@@ -40,7 +40,11 @@ RULE = (
     "exists - increasing stored ids inside kept chunks, at most max per template, each stored "
     "waveform on its stored channels == raw window x factor. Non-trivial: >=2 saves of one kind "
     "before a reload, or a reload after a malformed foreign file, or a store export followed by a "
-    "re-clustering and a reload.")
+    "re-clustering and a reload."
+    ' Later additions: relative dataset path followed by chdir, directory names with glob charact'
+    'ers, symlinked files, an earlier assignment saved again, dotted field names, a legacy cluste'
+    'r_<field>.csv with another column, files beyond the csv field limit, get_waveforms on all st'
+    'ored spikes compared with the store files.')
 ASSUMPTIONS = ['Python csv module', 'mtscomp as codec']
 
 
